@@ -104,6 +104,12 @@ CHECKS = {
         note="Membership is taken from CodeBase itself.",
         ref="2 C16",
     ),
+    "C17": dict(
+        technique="property-based testing: Hypothesis grammar-generated free-form Fortran with by-construction line roles, independent reference scanner, gfortran -cpp as domain filter and conditional-selection oracle",
+        text="Generated-input search over free-form Fortran program units (character literals with doubled quotes and embedded ! & //, trailing and full-line comments, directive sentinels, continuations with/without leading &, inside literals and with interleaved comments, nested cpp conditionals, an included .inc file). The set of counted lines, directive classification and total_sloc from FileParser must equal the generator's line roles (cross-checked by a reference scanner); marker statements must be attributed through finder.find exactly to the define sets under which `gfortran -cpp -E` keeps them. Bounded exploration.",
+        note="Trusts gfortran 12 -cpp for well-formedness and conditional selection; the generator's line roles are cross-checked by the scanner in checks/c17.py (a disagreement is a harness error).",
+        ref="2 C17",
+    ),
     "C18": dict(
         technique="property-based testing: Hypothesis trees with known dangling includes / unknown directives / bad database entries; oracle = event multiset of the reference preprocessor model vs captured log records and CLI totals",
         text="Generated-input search over code bases with a known set of unhonourable inputs. The reference model computes the expected multiset of warning events (per evaluation of a dangling include with file, line, name, form; reached unknown directives; missing-file entries; unknown compilers; unknown flags) which is compared with the WARNING records captured from config.load_database + finder.find; nothing else may be warned. A CLI layer compares the closing totals of `codebasin` with the warnings in cbi.log. Bounded exploration.",
